@@ -43,7 +43,9 @@ def prepare(repo, scratch, overlay_names):
     open(os.path.join(crate, 'Cargo.toml'), 'w').write(ct)
     applied = []
     # O1: harness modules (add-only: one `mod` line appended to the host file)
-    for host, modname, hfile in overlay.MODULES:
+    for ent in overlay.MODULES:
+        host, modname, hfile = ent[0], ent[1], ent[2]
+        cfgx = ent[3] if len(ent) > 3 else None
         p = os.path.join(crate, host)
         if not os.path.exists(p):
             raise LostAnchor('overlay host file missing: ' + host)
@@ -51,7 +53,7 @@ def prepare(repo, scratch, overlay_names):
         os.makedirs(hdir, exist_ok=True)
         shutil.copy(os.path.join(VERIF, 'kani', hfile), os.path.join(hdir, hfile))
         with open(p, 'a') as f:
-            f.write('\n#[cfg(kani)]\n#[path = "%s"]\npub(crate) mod %s;\n' % (os.path.join(hdir, hfile), modname))
+            f.write('\n#[cfg(%s)]\n#[path = "%s"]\npub(crate) mod %s;\n' % (('all(kani, %s)' % cfgx) if cfgx else 'kani', os.path.join(hdir, hfile), modname))
         applied.append('O1 %s <- mod %s (%s)' % (host, modname, hfile))
     # O2: contract attributes above named functions
     for c in overlay.CONTRACTS:
@@ -239,7 +241,7 @@ def playback(crate, G, name, scratch):
         import overlay
         modname = name.split('::')[0]
         rel = '::'.join(name.split('::')[1:])
-        hfile = [h for host, m_, h in overlay.MODULES if m_ == modname][0]
+        hfile = [e[2] for e in overlay.MODULES if e[1] == modname][0]
         hpath = os.path.join(scratch, 'kani_harness', hfile)
         tm = re.search(r'fn (kani_concrete_playback_\w+)\(\)', body)
         tname = 'verif_replay_%s_%s' % (re.sub(r'\W', '_', rel), tm.group(1)[-8:])
